@@ -300,6 +300,28 @@ fn main() {
     });
     sink.merge(sf);
 
+    // (G) what real traffic puts where a record is expected: SSLv2-compatible ClientHellos in all length
+    //     shapes and the openings of other protocols; the framing contract holds for them like for any bytes
+    let foreign = vcommon::catalogue::foreign_protocols();
+    let nforeign = foreign.len();
+    let sg = par_run(run.threads, foreign.len(), |i, sink| {
+        let b = &foreign[i];
+        let len = if b.len() >= 5 { ((b[3] as usize) << 8) | b[4] as usize } else { 0 };
+        let mut cuts: Vec<usize> = (0..=40.min(b.len())).collect();
+        for c in [5 + len / 2, (5 + len).saturating_sub(1), 5 + len, 5 + len + 1, b.len()] {
+            if c <= b.len() {
+                cuts.push(c);
+            }
+        }
+        for c in cuts {
+            for t in [&PLAINTEXT, &ENCRYPTED, &RAW_RECORD] {
+                one(t, &b[..c], sink);
+            }
+        }
+    });
+    sink.merge(sg);
+    sink.bump("foreign-protocol inputs", nforeign as u64);
+
     // (E) "all trailing bytes": records inside buffers whose total size crosses the 16-bit, 17-bit and
     //     20-bit boundaries (a length computed in a narrower integer type shows only here)
     let big_lens: Vec<usize> = vec![0, 1, 5, 100, 255, 256, 16384, 16640];
@@ -346,7 +368,7 @@ fn main() {
     let mut cov = Map::new();
     cov.insert("exhaustive".into(), json!(true));
     cov.insert("rule".into(), json!(format!(
-        "(A) all 256 content types x all 65536 declared lengths (quick tier: 12 types with all lengths, the other 244 types with ~800 boundary lengths) at cut points {{0..6, 5+len/2, 5+len-1, 5+len, 5+len+1, 5+len+7}} for parse_tls_encrypted / parse_tls_raw_record; the same for parse_tls_plaintext on 8 content types (complete records only at 76 boundary lengths); (B) every prefix of records of the boundary lengths (middle of long records every 97th byte in quick); (C) all 65536 versions; (D) complete records whose payload is every string of length <= {} over a per-type positional alphabet; (F) all 65536 versions x 9 declared lengths around the cap x 2 types (truncated buffers); (E) records of 8 lengths x 4 types followed by trailing data such that the buffer size crosses 2^16, 2^17 and 2^20 (+-6 bytes, with and without the record length). Oracle: reference framing (Incomplete iff strict prefix with exact Needed, TooLarge above 2^14+256, exact consumption, header fields, payload and remainder by position) plus the strict record walker. Non-trivial: everything but inputs cut inside the 5-byte header", maxn)));
+        "(A) all 256 content types x all 65536 declared lengths (quick tier: 12 types with all lengths, the other 244 types with ~800 boundary lengths) at cut points {{0..6, 5+len/2, 5+len-1, 5+len, 5+len+1, 5+len+7}} for parse_tls_encrypted / parse_tls_raw_record; the same for parse_tls_plaintext on 8 content types (complete records only at 76 boundary lengths); (B) every prefix of records of the boundary lengths (middle of long records every 97th byte in quick); (C) all 65536 versions; (D) complete records whose payload is every string of length <= {} over a per-type positional alphabet; (G) SSLv2-compatible ClientHellos (5 versions x 6 cipher-spec lengths x 2 session-id lengths x 3 challenge lengths) and the openings of 10 other protocols, at 45 cut points each; (F) all 65536 versions x 9 declared lengths around the cap x 2 types (truncated buffers); (E) records of 8 lengths x 4 types followed by trailing data such that the buffer size crosses 2^16, 2^17 and 2^20 (+-6 bytes, with and without the record length). Oracle: reference framing (Incomplete iff strict prefix with exact Needed, TooLarge above 2^14+256, exact consumption, header fields, payload and remainder by position) plus the strict record walker. Non-trivial: everything but inputs cut inside the 5-byte header", maxn)));
     let code = run.finish(
         &sink,
         cov,
